@@ -37,9 +37,15 @@ func Pub(i int) crypto.PublicKey { return Key(i).PublicKey() }
 // DAOIndex names the address of the DAO module account (a recipient no key belongs to).
 const DAOIndex = 900
 
+// EmptyIndex names the zero-length address.
+const EmptyIndex = 901
+
 func Addr(i int) sdk.Address {
 	if i == DAOIndex {
 		return sdk.Address(DAOAddr)
+	}
+	if i == EmptyIndex {
+		return sdk.Address{}
 	}
 	if i >= OddAddrBase {
 		return OddAddr(i)
